@@ -3,7 +3,9 @@
 #ifdef __cplusplus
 extern "C" {
 #endif
-extern int gh_lc_phase;
+extern int gh_lc_phase, gh_lc_phase_inner;
+extern int gh_def_called, gh_need_called;
+extern unsigned gh_aux_other;         /* vna_other of the Vernaux fetched last */
 extern unsigned long gh_size;         /* size of the version-definition section in bytes */
 extern unsigned gh_versym;            /* the symbol's version index word (Elfxx_Versym, 16 bits) */
 extern unsigned long gh_getverdef_calls;   /* gelf_getverdef calls so far */
